@@ -21,8 +21,11 @@ import random
 
 from vlib import core, tlc
 
+TINY = dict(Targets=['T'], Tasks=['k'], AlgNames=['A', 'A2'], SvNames=['s'], ValNames=['v'], Runs=[1, 2], Contents=[1, 2])
 SMALL = dict(Targets=['T', 'T2'], Tasks=['k'], AlgNames=['A', 'A2', 'AB'], SvNames=['s'], ValNames=['v'], Runs=[1, 2], Contents=[1, 2])
 FULL = dict(Targets=['T', 'T2'], Tasks=['k', 'k2'], AlgNames=['A', 'A2', 'AB'], SvNames=['s'], ValNames=['v'], Runs=[1, 2, 3], Contents=[1, 2, 3])
+DENSE = dict(Targets=['T', 'T2'], Tasks=['k'], AlgNames=['A', 'A2', 'AB'], SvNames=['s'], ValNames=['v'], Runs=[1, 2, 3], Contents=[1, 2, 3])
+MID = dict(Targets=['T', 'T2'], Tasks=['k'], AlgNames=['A', 'A2', 'AB'], SvNames=['s', 's2'], ValNames=['v'], Runs=[1, 2, 3], Contents=[1, 2, 3])
 WIDE = dict(Targets=['T', 'T2'], Tasks=['k', 'k2'], AlgNames=['A', 'A2', 'AB'], SvNames=['s', 's2'], ValNames=['v', 'v2'], Runs=[1, 2, 3], Contents=[1, 2, 3])
 
 MC_PROPS = {
@@ -96,14 +99,23 @@ def gen_schedules(chk, name, alpha, maxops, timeout=1800):
     return parse_scheds(res)
 
 
-def sim_schedules(chk, name, alpha, num, depth, seed, timeout=900):
+def sim_schedules(chk, name, alpha, chains, depth, seed, workers=4, timeout=1800):
+    '''long histories: Store_Sim, one successor per state, `chains` histories, every choice made by TLC'''
     cfg = os.path.join(chk.work, f'{name}.cfg')
-    tlc.write_cfg(cfg, spec='GenSpec', constants=consts(alpha, depth), invariants=['SimInv'])
-    res = tlc.run('Store_Gen.tla', cfg, workers=1, simulate=f'num={num}', depth=depth + 1, seed=seed, timeout=timeout, out_file=os.path.join(chk.work, f'{name}.out'))
-    if res.error and 'Error:' in res.out and 'simulat' not in res.out.lower():
-        raise core.Machinery(f'simulation {name} failed: {res.error}')
-    chk.mc_runs.append(dict(res.summary(), name=name, module='Store_Gen.tla', mode='simulate'))
-    return parse_scheds(res, maximal_only=True)
+    cst = consts(alpha, depth)
+    cst['Chains'] = str(chains)
+    cst['Seed'] = str(seed % 1000)
+    tlc.write_cfg(cfg, spec='SimSpec', constants=cst, invariants=['Done'])
+    res = tlc.run('Store_Sim.tla', cfg, workers=workers, timeout=timeout, out_file=os.path.join(chk.work, f'{name}.out'))
+    if not res.ok:
+        raise core.Machinery(f'simulation {name} failed: {res.error or res.violated}')
+    chk.mc_runs.append(dict(res.summary(), name=name, module='Store_Sim.tla', mode='pseudo-random chains'))
+    # a chain forks where the model leaves the result of reset open (several recorded versions): a few more
+    # histories than chains; identical histories are kept once
+    out = [json.loads(k) for k in sorted({json.dumps(h, sort_keys=True) for h in parse_scheds(res)})]
+    if not chains * 0.9 <= len(out) <= chains * 1.5:
+        raise core.Machinery(f'simulation {name}: {len(out)} histories for {chains} chains')
+    return out
 
 
 def to_jobs(scheds, start=0):
@@ -133,18 +145,15 @@ def signature(clause, job, steps, line):
     before = steps[1 : line - 1]
     if clause == 'C06.LoadOK':
         for p in before:
-            if p['ev'] == 'Remove' and is_proper_prefix(p['args']['a'], a['a']) and all(p['args'][k] == a[k] for k in ('tgt', 'task', 's', 'v')):
-                return 'load of an entry deleted by a remove addressed to a name that is a prefix of its algorithm name'
+            if p['ev'] == 'Remove' and p['args']['tgt'] == a['tgt'] and p['args']['task'] == a['task'] and any(is_proper_prefix(p['args'][k], a[k]) for k in ('a', 's', 'v')):
+                return 'load of an entry deleted by a remove addressed to a name that is a proper prefix of one of its names'
         return 'load:' + ','.join(p['ev'] for p in before)
     if clause.startswith('C08.ExactNames'):
-        names = set()
-        for p in before:
-            if p['ev'] in ('Update', 'Register', 'Load'):
-                names.add(p['args']['a'])
-        sib = sorted(n for n in names if is_proper_prefix(a['a'], n))
-        if sib:
-            return f'{st["ev"].lower()} addressed to a name that is a proper prefix of another algorithm name of the task'
-        return f'{st["ev"].lower()} addressed to an algorithm without entries while another algorithm of the task has some'
+        for level, key in (('algorithm', 'a'), ('state vector', 's'), ('value', 'v')):
+            names = {p['args'][key] for p in before if p['ev'] in ('Update', 'Register', 'Load')}
+            if a[key] and any(is_proper_prefix(a[key], n) for n in names):
+                return f'{st["ev"].lower()} addressed to a name that is a proper prefix of another {level} name'
+        return f'{st["ev"].lower()} addressed to an algorithm without entries at that run while another algorithm of the task has some'
     return clause + ':' + ','.join(p['ev'] for p in before) + ',' + st['ev']
 
 
@@ -195,25 +204,31 @@ def run(pid, tier, seed, replay=None):
     thorough = tier == 'thorough'
     props = MC_PROPS[pid]
     # 1. MC: the repaired transcription satisfies the clauses on the whole bounded domain
-    chk.mc('mc_small3', 'Store_MC.tla', dict(spec='Spec', constants=consts(SMALL, 3), extra=['VIEW View'], **props), workers=MCW)
+    chk.mc('mc_tiny3', 'Store_MC.tla', dict(spec='Spec', constants=consts(TINY, 3), extra=['VIEW View'], **props), workers=MCW)
     if thorough:
+        chk.mc('mc_small2', 'Store_MC.tla', dict(spec='Spec', constants=consts(SMALL, 2), extra=['VIEW View'], **props), workers=4)
+        chk.mc('mc_small3', 'Store_MC.tla', dict(spec='Spec', constants=consts(SMALL, 3), extra=['VIEW View'], **props), workers=core.NPROC)
         chk.mc('mc_full2', 'Store_MC.tla', dict(spec='Spec', constants=consts(FULL, 2), extra=['VIEW View'], **props), workers=MCW)
         chk.mc('mc_small4', 'Store_MC.tla', dict(spec='Spec', constants=consts(SMALL, 4, canon=True), extra=['VIEW View'], **props), workers=core.NPROC)
     #    ... and the transcription of the tree as pinned is refuted (design-level defect visible without running code)
-    pin = chk.mc('mc_pinned', 'Store_MC.tla', dict(spec='Spec', constants=consts(SMALL, 3, pinned=True), extra=['VIEW View'], **props), workers=4, expect_ok=False)
+    pin = chk.mc('mc_pinned', 'Store_MC.tla', dict(spec='Spec', constants=consts(TINY, 3, pinned=True), extra=['VIEW View'], **props), workers=4, expect_ok=False)
     if pin.ok:
         raise core.Machinery('the transcription of the pinned subset/reset satisfies the clauses: the model cannot tell the defect')
     chk.extra['pinned_transcription_refuted_by'] = pin.violated
     # 2. GEN
     scheds = gen_schedules(chk, 'gen', SMALL, 3 if thorough else 2)
     total_transitions = len(scheds)
-    cap = 20000 if thorough else 2500
+    cap = 12000 if thorough else 1200
     if len(scheds) > cap:
         short = [h for h in scheds if len(h) <= 2]
         rest = [h for h in scheds if len(h) > 2]
         rnd.shuffle(rest)
         scheds = (short + rest)[:cap] if len(short) < cap else rnd.sample(short, cap)
-    sims = sim_schedules(chk, 'sim', WIDE, 1500 if thorough else 150, 25, seed)
+    if thorough:
+        sims = sim_schedules(chk, 'sim_dense', DENSE, 1000, 25, seed, workers=MCW)
+        sims += sim_schedules(chk, 'sim_wide', WIDE, 500, 25, seed + 1, workers=MCW)
+    else:
+        sims = sim_schedules(chk, 'sim_mid', MID, 80, 25, seed, workers=4)
     jobs = to_jobs(scheds + sims)
     chk.samples = [{'history': [[e[k] for k in FIELDS if e[k] not in ('', 0)] for e in j['events']]} for j in rnd.sample(jobs[: len(scheds)], min(3, len(scheds)))] + [
         {'history': [[e[k] for k in FIELDS if e[k] not in ('', 0)] for e in j['events']]} for j in jobs[len(scheds) : len(scheds) + 1]
